@@ -69,7 +69,7 @@ PIECES = ["<", ">", "&", '"', "'", "/", "=", "`", "\0", "<!--", "-->", "--!>", "
           "&quot;", "&#60;", "&#x3c;", "&#0;", "&notit;", "&amp", "&lt", "&#", "&#x", "&;", " onload=alert(1) x=\"",
           "javascript:alert(1)", "\r", "\n", "\r\n", "\t", "\x0c", " ", "  ", "a", "b", "Z", "0", ";", ":", "x:y", "\u00e9",
           "CHR_00A0", "CHR_2028", "CHR_2029", "CHR_FEFF", "CHR_3000", "CHR_0085", "CHR_1F600", "CHR_10FFFF", "CHR_FFFD",
-          "CHR_0301", "CHR_200D"]
+          "CHR_0301", "CHR_200D", "<body", "</head>", "<!--HEAD-->", "<html", "</body>", "</script><script>alert(1)//"]
 PIECES = [("".join(chr(int(p[4:], 16))) if p.startswith("CHR_") else p) for p in PIECES]
 
 
@@ -147,10 +147,10 @@ def gen_leaf(rng):
     return [4]
 
 
-def gen_view(rng, depth=0, tags=None):
+def gen_view(rng, depth=0, tags=None, deep_tags=None):
     if depth >= 3 or rng.random() < 0.35:
         return gen_leaf(rng)
-    tag = rng.choice(tags or [0, 0, 1, 1, 2, 3, 4, 5, 6, 7, 8, 9])
+    tag = rng.choice(tags or deep_tags or [0, 0, 1, 1, 2, 3, 4, 5, 6, 7, 8, 9])
     attrs = gen_attrs(rng, tag)
     kids = []
     if tag in VOID:
@@ -168,7 +168,7 @@ def gen_view(rng, depth=0, tags=None):
                 kids = [[0, b("x")]] + kids
     else:
         for _ in range(rng.choice([0, 1, 1, 2, 2, 3, 4])):
-            kids.append(gen_view(rng, depth + 1))
+            kids.append(gen_view(rng, depth + 1, deep_tags=deep_tags))
     return [2, tag, attrs, kids]
 
 
@@ -233,6 +233,110 @@ def gen_document(rng):
     return [3, title, metas, link, lang, cls, body, shell]
 
 
+# ---- leptos_meta components anywhere in a streamed document: (6 kind variant strings rep)
+META_ATTRS = {
+    (1, 0): ("meta", ["name", "content"]), (1, 1): ("meta", ["property", "content"]),
+    (1, 2): ("meta", ["http-equiv", "content"]), (1, 3): ("meta", ["charset"]),
+    (1, 4): ("meta", ["itemprop", "content", "name"]),
+    (2, 0): ("link", ["rel", "href"]), (2, 1): ("link", ["id", "rel", "href", "title"]),
+    (2, 2): ("link", ["id", "as", "crossorigin", "fetchpriority", "href", "hreflang", "imagesizes", "imagesrcset",
+                      "integrity", "media", "referrerpolicy", "rel", "sizes", "title", "type", "blocking"]),
+    (3, 0): ("link", ["href"]), (3, 1): ("link", ["href", "id"]),
+    (4, 0): ("script", ["src", "id"]), (4, 1): ("script", ["id"]),
+    (4, 2): ("script", ["id", "async", "crossorigin", "defer", "fetchpriority", "integrity", "nomodule", "nonce",
+                        "referrerpolicy", "src", "type", "blocking"]),
+    (5, 0): ("style", []), (5, 1): ("style", ["id", "media", "nonce", "title", "blocking"]),
+    (6, 0): ("html", ["lang"]), (6, 1): ("html", ["lang", "dir"]),
+    (7, 0): ("body", ["class"]), (7, 1): ("body", ["class", "id"]),
+}
+META_CHILD = {(4, 1): 1, (5, 0): 0, (5, 1): 5}      # index of the string that is the raw-text child
+# hostile literal props (harness: meta_node, kind 8)
+LIT_META = [
+    ("el", "link", [("rel", "canonical"), ("href", '/s?q=1&lt=2"><img src=x onerror=alert(1)>')], []),
+    ("el", "meta", [("name", 'desc"ription'), ("content", 'a"><script>alert(1)</script>&amp;')], []),
+    ("el", "link", [("rel", "stylesheet"), ("href", '/a.css?x="&quot;<'), ("id", 's"id')], []),
+    ("el", "script", [("src", '/a.js?"><b>'), ("id", "&lt;")], []),
+    ("title", "</title><script>alert(1)</script>&amp;"),
+    ("el", "link", [("id", 'l"1'), ("rel", 'pre"load'), ("href", "&#x3c;x"), ("title", "<t>&gt;'")], []),
+    ("el", "style", [("id", 'st"yle'), ("media", 'screen" onload="alert(1)')], [("text", "b{color:red}")]),
+    ("el", "meta", [("property", "og:title"), ("content", '&quot; onclick=&quot;" x="')], []),
+]
+META_BODY_TAGS = [0, 0, 1, 1, 2, 3, 4, 5, 6]
+CODE_PIECES = ["var x = 1 < 2;", "a && b", "'</b>'", "\"<body>\"", "<body", "/* <html> */", "b{color:red}", "x", "\n",
+               "</head>", "<!--HEAD-->", "</script", "</style", "<!--", "&amp;", "</title>"]
+
+
+def gen_meta_node(rng, only=None):
+    kind = only if only is not None else rng.choice([0, 0, 0, 1, 1, 2, 2, 3, 4, 4, 5, 8, 8])
+    if kind == 8:
+        return [6, 8, rng.randrange(len(LIT_META)), [], 0]
+    if kind == 0:
+        return [6, 0, 0, [b(text(rng, 8))], rng.randrange(6)]
+    var = rng.choice([k[1] for k in META_ATTRS if k[0] == kind])
+    n = len(META_ATTRS[(kind, var)][1]) + (1 if (kind, var) in META_CHILD else 0)
+    strs = [b(text(rng)) for _ in range(rng.randint(1, max(1, n)))]
+    if (kind, var) in META_CHILD and rng.random() < 0.8:
+        # the raw-text child of <Script> / <Style>: mostly code-like
+        while len(strs) <= META_CHILD[(kind, var)]:
+            strs.append(b(text(rng)))
+        strs[META_CHILD[(kind, var)]] = b("".join(rng.choice(CODE_PIECES[:9] if rng.random() < 0.85 else CODE_PIECES)
+                                                  for _ in range(rng.randint(0, 3))))
+    return [6, kind, var, strs, rng.randrange(6)]
+
+
+def sprinkle_meta(rng, v, nodes):
+    """insert the meta nodes as children of random ordinary elements of v"""
+    spots = []
+
+    def walk(x):
+        if x[0] == 2 and x[1] in (0, 1, 2):
+            spots.append(x)
+            for k in x[3]:
+                walk(k)
+    walk(v)
+    for m in nodes:
+        el = rng.choice(spots)
+        el[3].insert(rng.randint(0, len(el[3])), m)
+    return v
+
+
+def gen_meta_doc(rng):
+    v = gen_view(rng, 1, deep_tags=META_BODY_TAGS)
+    if v[0] != 2 or v[1] not in (0, 1, 2):
+        v = [2, 0, [], [v]]
+    early = [gen_meta_node(rng) for _ in range(rng.choice([0, 1, 1, 2, 3]))]
+    if rng.random() < 0.35:
+        early.append(gen_meta_node(rng, 6))
+    if rng.random() < 0.35:
+        early.append(gen_meta_node(rng, 7))
+    sprinkle_meta(rng, v, early)
+    counter = [0]
+    v = add_suspends(rng, v, counter)
+    if rng.random() < 0.75 and counter[0] < 6:
+        # components that are constructed / rendered only when their Suspend resolves
+        late = [gen_meta_node(rng, rng.choice([0, 0, 0, 1, 2, 4, 8])) for _ in range(rng.choice([1, 1, 2, 3]))]
+        if not any(m[1] in (6, 7) for m in early) and rng.random() < 0.2:
+            late.append(gen_meta_node(rng, rng.choice([6, 7])))
+        inner = [2, rng.choice([0, 1, 2]), gen_attrs(rng, 0), [gen_leaf(rng) for _ in range(rng.randint(0, 2))]]
+        sprinkle_meta(rng, inner, late)
+        v[3].insert(rng.randint(0, len(v[3])), [5, counter[0], inner])
+        counter[0] += 1
+    n = counter[0]
+    mode = rng.randint(0, 1)
+    if mode == 1 and suspend_in_raw(v):
+        mode = 0
+    sched = []
+    order = list(range(n))
+    rng.shuffle(order)
+    for k in order[:rng.randint(0, n)]:
+        if rng.random() < 0.6:
+            sched.append(-1)
+        sched.append(k)
+    if rng.random() < 0.25:
+        sched = [k for k in sched if k >= 0]
+    return [6, mode, v, sched]
+
+
 N_STATIC = 13
 N_TEMPLATES = 14
 
@@ -245,8 +349,10 @@ def generate(rng, tier):
         r = rng.random()
         if r < 0.55:
             yield dict(case=[1, gen_top(rng)], kind="view", compare=True)
-        elif r < 0.72:
+        elif r < 0.66:
             yield dict(case=gen_document(rng), kind="document", compare=True)
+        elif r < 0.74:
+            yield dict(case=gen_meta_doc(rng), kind="metadoc", compare=False)
         elif r < 0.84:
             yield dict(case=gen_stream(rng), kind="stream", compare=False)
         else:
@@ -341,7 +447,7 @@ def exp_nodes(kids):
             out += exp_nodes([k[2]])       # a Suspend renders what it resolves to
         elif k[0] == 2:
             out.append(exp_el(k))
-        elif k[0] == 4:
+        elif k[0] in (4, 6):
             continue
         else:
             t = leaf_text(k)
@@ -529,7 +635,7 @@ def views_of(case):
         return [case[1]]
     if case[0] == 3:
         return [case[6]]
-    if case[0] == 5:
+    if case[0] in (5, 6):
         return [case[2]]
     return []
 
@@ -540,6 +646,158 @@ def has_element_in_text_only(v):
     if (v[1] in RCDATA or v[1] in RAW) and any(k[0] == 2 for k in v[3]):
         return True
     return any(has_element_in_text_only(k) for k in v[3])
+
+
+# ----------------------------------------------------------------------------- streamed documents with leptos_meta
+def meta_nodes(v, late=False, out=None):
+    """the leptos_meta components of a view in tree order, with whether they sit below a Suspend"""
+    out = [] if out is None else out
+    if v[0] == 6:
+        out.append((late, v))
+    elif v[0] == 5:
+        meta_nodes(v[2], True, out)
+    elif v[0] == 2:
+        for k in v[3]:
+            meta_nodes(k, late, out)
+    return out
+
+
+def meta_expect(m):
+    """("title", text) or the element the component stands for"""
+    kind, var, strs = m[1], m[2], [s_of(x) for x in m[3]]
+    if kind == 8:
+        return LIT_META[var]
+    st = lambda i: strs[i % len(strs)] if strs else ""
+    if kind == 0:
+        return ("title", st(0))
+    name, names = META_ATTRS[(kind, var)]
+    attrs = [(n, norm_attr(st(i))) for i, n in enumerate(names)]
+    if kind == 3:
+        attrs.append(("rel", "stylesheet"))
+    if kind == 7:
+        attrs[0] = ("class", norm_attr(rust_trim(st(0))))
+    kids = []
+    if (kind, var) in META_CHILD:
+        t = norm_attr(st(META_CHILD[(kind, var)]))
+        kids = [("text", t)] if t else []
+    return ("el", name, attrs, kids)
+
+
+def meta_breakouts(v):
+    """<Script> / <Style> components whose raw-text child contains its own end tag (F-C06-b)"""
+    out = []
+    for _, m in meta_nodes(v):
+        if (m[1], m[2]) in META_CHILD and m[3]:
+            code = s_of(m[3][META_CHILD[(m[1], m[2])] % len(m[3])]).lower()
+            tag = "script" if m[1] == 4 else "style"
+            if "</" + tag in code or (tag == "script" and "<!--" in code):
+                out.append(tag)
+    return out
+
+
+def drop_scripts(nodes):
+    out = []
+    for n in nodes:
+        if n[0] == "el":
+            if n[1] == "script":
+                continue
+            n = ("el", n[1], n[2], drop_scripts(n[3]))
+        out.append(n)
+    return out
+
+
+def skeleton(nodes):
+    """elements and attribute names only: what no data string may change"""
+    return [("el", n[1], sorted(set(a for a, _ in n[2])), skeleton(n[3])) for n in nodes if n[0] == "el"]
+
+
+def skeleton_diff(a, b, path="document"):
+    for i in range(max(len(a), len(b))):
+        if i >= len(a):
+            return "%s: the data adds <%s>" % (path, b[i][1])
+        if i >= len(b):
+            return "%s: the data removes <%s>" % (path, a[i][1])
+        x, y = a[i], b[i]
+        if x[1] != y[1]:
+            return "%s[%d]: <%s> becomes <%s>" % (path, i, x[1], y[1])
+        if x[2] != y[2]:
+            return "%s[%d] <%s>: attribute names %r become %r" % (path, i, x[1], x[2], y[2])
+        d = skeleton_diff(x[3], y[3], "%s > %s[%d]" % (path, x[1], i))
+        if d:
+            return d
+    return None
+
+
+def oracle_metadoc(case, impl):
+    try:
+        html, neutral = (bytes(x).decode("utf-8") for x in impl)
+    except Exception:
+        return "harness output is not two UTF-8 documents"
+    mode, view = case[1], case[2]
+    doc, _ = H.parse_document(html)
+    doc_skeleton = skeleton(doc[1])       # (the out-of-order emulation below works in place)
+    top = [n for n in doc[1] if n[0] != "comment"]
+    if len(top) != 2 or top[0] != ("doctype", "html") or top[1][0] != "el" or top[1][1] != "html":
+        return "document does not parse to doctype + html"
+    root = top[1]
+    kids = [n for n in root[3] if n[0] != "comment"]
+    if [n[1] for n in kids if n[0] == "el"] != ["head", "body"] or len(kids) != 2:
+        return "html element does not consist of head and body: " + H.serialize(kids)[:200]
+    head, body = kids
+    metas = meta_nodes(view)
+    exp = [(late, meta_expect(m), m) for late, m in metas]
+    # <html> and <body> attributes: those of the component, if it was rendered with the first chunk
+    for el, kind in ((root, 6), (body, 7)):
+        comps = [(late, e) for late, e, m in exp if m[1] == kind]
+        want = sorted(comps[0][1][2]) if comps else []
+        got = sorted(el[2])
+        if got != want and not (comps and comps[0][0] and got == []):
+            return "<%s> attributes differ: expected %r, parsed %r" % (el[1], want, got)
+    # <head>: the shell's meta charset, the title, then what the components registered
+    hk = canon(strip_comments(head[3]))
+    if not hk or hk[0] != ("el", "meta", [("charset", "utf-8")], []):
+        return "head does not start with the shell's <meta charset>: " + H.serialize(hk[:1])[:200]
+    hk = hk[1:]
+    titles = [(late, e[1]) for late, e, m in exp if e[0] == "title"]
+    sync_titles = [t for late, t in titles if not late]
+    allowed = set(t for late, t in titles if late) | set(sync_titles[-1:])
+    if hk and hk[0][0] == "el" and hk[0][1] == "title":
+        t = hk[0]
+        hk = hk[1:]
+        txt = "".join(n[1] for n in t[3] if n[0] == "text")
+        if t[2] or any(n[0] != "text" for n in t[3]) or txt not in set(norm_attr(x) for x in allowed):
+            return "document title differs: parsed %s, <Title> texts %r" % (H.serialize(t).strip()[:200], sorted(allowed))
+    elif sync_titles:
+        return "document title missing: expected %r" % sync_titles[-1]
+    sync = [canon([e])[0] for late, e, m in exp if e[0] == "el" and not late and m[1] not in (6, 7)]
+    late = [canon([e])[0] for late, e, m in exp if e[0] == "el" and late and m[1] not in (6, 7)]
+    for n in hk:
+        if sync and n == sync[0]:
+            sync.pop(0)
+        elif n in late:
+            late.remove(n)
+        else:
+            return "head: parsed node %s is not what the next component registered (%s)" % (
+                H.serialize(n).strip()[:200], H.serialize(sync[0]).strip()[:200] if sync else "nothing left")
+    if sync:
+        return "head: missing %s" % H.serialize(sync[0]).strip()[:200]
+    # <body>: exactly the view (scripts are the framework's: the view grammar here has none)
+    nodes = body[3]
+    if mode == 1:
+        nodes, probs = H.apply_leptos_ooo(nodes)
+        if probs:
+            return "out-of-order stream: " + probs[0]
+    got = merge_texts(canon(drop_scripts(strip_comments(nodes))))
+    want = merge_texts(canon(exp_nodes([view])))
+    d = first_diff(want, got)
+    if d:
+        return "parsed document body differs from the view: " + d
+    # non-interference: the same case with letters for data has the same elements and attribute names
+    ndoc, _ = H.parse_document(neutral)
+    d = skeleton_diff(skeleton(ndoc[1]), doc_skeleton)
+    if d:
+        return "element structure depends on the data: " + d
+    return None
 
 
 # ----------------------------------------------------------------------------- oracle
@@ -570,6 +828,8 @@ def oracle(item, impl):
     case = item["case"]
     if isinstance(impl, str):
         return "harness error / panic: " + impl
+    if case[0] == 6:
+        return oracle_metadoc(case, impl)
     try:
         html = bytes(impl).decode("utf-8")
     except UnicodeDecodeError:
@@ -610,7 +870,7 @@ def oracle(item, impl):
 def classify(item, impl, model):
     case = item["case"]
     for v in views_of(case):
-        if rawtext_breakouts(v):
+        if rawtext_breakouts(v) or meta_breakouts(v):
             return "F-C06-b"
     return None
 
@@ -655,11 +915,19 @@ def valid_case(item):
                     return False
                 bytes(m[0]).decode("utf-8")
                 bytes(m[1]).decode("utf-8")
-            return valid_view(case[6]) and not has_suspend(case[6])
+            return valid_view(case[6]) and not has_suspend(case[6]) and not meta_nodes(case[6])
         if op == 1:
-            return len(case) == 2 and valid_view(case[1]) and not has_suspend(case[1])
+            return len(case) == 2 and valid_view(case[1]) and not has_suspend(case[1]) and not meta_nodes(case[1])
+        if op == 6:
+            ms = [m for _, m in meta_nodes(case[2])] if valid_view(case[2]) else None
+            return (ms is not None and len(case) == 4 and case[1] in (0, 1)
+                    and not has_meta_in_text_only(case[2])
+                    and sum(1 for m in ms if m[1] == 6) <= 1 and sum(1 for m in ms if m[1] == 7) <= 1
+                    and not has_tag(case[2], (7, 8, 9))
+                    and not (case[1] == 1 and suspend_in_raw(case[2]))
+                    and all(isinstance(k, int) and -1 <= k < 16 for k in case[3]))
         if op == 5:
-            return (len(case) == 4 and case[1] in (0, 1) and valid_view(case[2])
+            return (len(case) == 4 and case[1] in (0, 1) and valid_view(case[2]) and not meta_nodes(case[2])
                     and not (case[1] == 1 and suspend_in_raw(case[2]))
                     and all(isinstance(k, int) and -1 <= k < 16 for k in case[3]))
         return False
@@ -681,6 +949,14 @@ def valid_view(v, in_text_only=False):
         return len(v) == 2 and -(2 ** 63) <= v[1] < 2 ** 63
     if k == 4:
         return len(v) == 1
+    if k == 6:
+        if len(v) != 5 or not isinstance(v[3], list) or not isinstance(v[4], int) or not 0 <= v[4] < 6:
+            return False
+        for x in v[3]:
+            bytes(x).decode("utf-8")
+        if v[1] == 8:
+            return isinstance(v[2], int) and 0 <= v[2] < len(LIT_META) and v[3] == []
+        return (v[1] == 0 and v[2] == 0 or (v[1], v[2]) in META_ATTRS) and len(v[3]) >= 1
     if k != 2 or len(v) != 4 or not (0 <= v[1] < len(TAGS)):
         return False
     names = []
@@ -763,6 +1039,26 @@ def has_suspend(v):
     return v[0] == 2 and any(has_suspend(k) for k in v[3])
 
 
+def has_tag(v, tags):
+    if v[0] == 5:
+        return has_tag(v[2], tags)
+    return v[0] == 2 and (v[1] in tags or any(has_tag(k, tags) for k in v[3]))
+
+
+def has_meta_in_text_only(v, inside=False):
+    if v[0] == 6:
+        return inside
+    if v[0] == 5:
+        return has_meta_in_text_only(v[2], inside)
+    if v[0] != 2:
+        return False
+    t = v[1] in RCDATA or v[1] in RAW or v[1] in VOID
+    return any(has_meta_in_text_only(k, inside or t) for k in v[3])
+
+
+META_KINDS = ["Title", "Meta", "Link", "Stylesheet", "Script", "Style", "Html", "Body", "literal"]
+
+
 def show_view(v):
     if v[0] == 5:
         return "Suspend#%d(%s)" % (v[1], show_view(v[2]))
@@ -774,6 +1070,16 @@ def show_view(v):
         return str(v[1])
     if v[0] == 4:
         return "()"
+    if v[0] == 6:
+        if v[1] == 8:
+            return "<literal #%d %s>" % (v[2], H.serialize(LIT_META[v[2]]).strip() if LIT_META[v[2]][0] == "el" else LIT_META[v[2]])
+        if v[1] == 0:
+            return "<Title text=%r rep %d/>" % (s_of(v[3][0]), v[4])
+        name, names = META_ATTRS[(v[1], v[2])]
+        strs = [s_of(x) for x in v[3]]
+        props = " ".join("%s=%r" % (n, strs[i % len(strs)]) for i, n in enumerate(names))
+        kid = (" child %r" % strs[META_CHILD[(v[1], v[2])] % len(strs)]) if (v[1], v[2]) in META_CHILD else ""
+        return "<%s %s%s rep %d/>" % (META_KINDS[v[1]], props, kid, v[4])
     at = []
     for a in v[2]:
         if a[0] == 0:
@@ -804,6 +1110,9 @@ def describe(it):
             return "view! template #%d with %r" % (case[1], s_of(case[2]))
         if case[0] == 5:
             return "%s stream, schedule %r, of %s" % ("out-of-order" if case[1] else "in-order", case[3], show_view(case[2]))
+        if case[0] == 6:
+            return "document with leptos_meta through inject_meta_context, %s stream, schedule %r (k: future k completes, -1: poll), body %s" % (
+                "out-of-order" if case[1] else "in-order", case[3], show_view(case[2]))
         if case[0] == 3:
             return "document title=%r metas=%r link=%r lang=%r body-class=%r body=%s" % (
                 [s_of(x) for x in case[1]], [(s_of(n), s_of(c)) for n, c in case[2]], [s_of(x) for x in case[3]],
